@@ -249,3 +249,8 @@ def run(chk, repo):
     chk.rule('C04.f', 'canonical pool lookup key covers every digest parameter (shared rule with C12.a)', 3)
     from rules.C12 import lookup_key_rules
     lookup_key_rules(chk, repo, 'C04.f')
+
+    # ------------------------------------------------------------------ g
+    from rules.C10 import rule_thread, rule_cleave
+    rule_thread(chk, repo, rid='C04.g', quals=('cli.common:load_references', 'cli.generate_index:generate_index', 'cli.update_index:update_index'))
+    rule_cleave(chk, repo, rid='C04.h')
